@@ -287,7 +287,7 @@ def witness_case(case, sched):
 # minimisation of a confirmed divergence
 # --------------------------------------------------------------------------------------------
 
-def minimise(ns, case, sched, diverges, max_probes=120):
+def minimise(ns, case, sched, diverges, max_probes=400):
     """Shrink the schedule, then (generated programs) the statements, keeping `diverges(case, sched)`.
     diverges must run everything in pristine children."""
     sched = list(sched)
@@ -352,4 +352,16 @@ def minimise(ns, case, sched, diverges, max_probes=120):
         return case, sched
     best = ddmin(units, test, max_probes=max_probes)
     c2, s2 = build(best)
+    # drop files the minimised program no longer needs
+    src_paths = {p for p, _t in c2.sources} | {c2.defs[k]["file"] for k, _p in s2}
+    for path in sorted(c2.files):
+        if path in src_paths:
+            continue
+        trial = Case(c2.sources, {p: b for p, b in c2.files.items() if p != path}, c2.charset, c2.origin)
+        trial.defs = c2.defs
+        try:
+            if diverges(trial, s2):
+                c2 = trial
+        except Exception:
+            pass
     return c2, s2
